@@ -25,6 +25,10 @@ impl Stdin {
 
     /// `None` indicates EOF.
     fn read_byte(&mut self) -> Option<u8> {
+        #[cfg(lace_verif)]
+        if let Some(injected) = crate::verif::input_byte() {
+            return injected;
+        }
         let mut buf = [0; 1];
         let bytes_read = self
             .stdin
